@@ -206,6 +206,10 @@ structure Ghost where
   through get_mut), with that value: until the key leaves the store or is written again, the cache
   must never show an older value for it (C02: "never rolled back") -/
   inPlace : List (Nat × Nat) := []
+  /-- `remove(k, conflict)` calls made on the open cache whose queued `Delete` the processor has not
+  handled yet, oldest first (entries whose item was dropped by a clear stay: they only make the C18
+  monitor more lenient) -/
+  pendingRemoves : List (Nat × Nat) := []
   /-- the charge each charged key is due according to the items the processor applied for it (given
   cost or Coster value + overhead, C16's formula); kept only for keys the implementation still charges -/
   due : List (Nat × Int) := []
@@ -786,6 +790,7 @@ partial def stepCache (st : CacheSt) (tl : Tally) (act : String) (ans : String) 
         let tl := if retS == expect then tl else tl.divergeAt "c.remove.ret" expect retS
         let g := if retS == "blocked" then { g with blocked := ("remove", id) :: g.blocked } else g
         -- values written under this key so far are dead once this remove has taken effect
+        let g := if !((g.prev.map (·.closed)).getD false) then { g with pendingRemoves := g.pendingRemoves ++ [(k, cf)] } else g
         let mine := (g.origin.filter fun (_, ok, ocf) => ok == k && (cf == 0 || ocf == cf || ocf == 0)).map (·.1)
         let g := if !((g.prev.map (·.closed)).getD false) then
             { g with removedVals := mine ++ g.removedVals, lastWrite := g.lastWrite.filter (·.1.1 != k) } else g
@@ -949,7 +954,17 @@ partial def stepCache (st : CacheSt) (tl : Tally) (act : String) (ans : String) 
             -- C18: the processor's handling of an item of one key leaves a colliding key's entry alone
             let tl := match implItem.getD it with
               | .new k cf _ _ _ => monitorIsolation tl g snap k cf "the processor's insert" none cbsImpl
-              | .delete k cf => monitorIsolation tl g snap k cf "the processor's delete" none cbsImpl
+              | .delete k cf =>
+                let tl := monitorIsolation tl g snap k cf "the processor's delete" none cbsImpl
+                -- whatever this Delete removed, some pending remove() asked for that key (index and conflict)
+                match g.prev.bind (fun p => findItem p k) with
+                | some (_, icf, iv, _, _) =>
+                  if (findItem snap k).isNone then
+                    let mine := g.pendingRemoves.filter (·.1 == k)
+                    if mine.any (fun (_, rcf) => rcf == 0 || icf == 0 || rcf == icf) then tl
+                    else tl.monitorAt "C18" s!"the processor's delete removed the entry ({k},{icf}) with value {iv}, but the only remove() calls pending for that index were for {mine.map (·.2)}: a remove of a colliding key removed another key's value"
+                  else tl
+                | none => tl
               | _ => tl
             -- monitors: C16 charged cost, C08/C16 callback cost (judged on the item the implementation handled)
             let tl := match implItem.getD it with
@@ -1004,6 +1019,16 @@ partial def stepCache (st : CacheSt) (tl : Tally) (act : String) (ans : String) 
                   tl.monitorAt "C01" s!"after the admission of new key {k} the costs asked for the charged entries (given cost or Coster value + overhead, per the latest insert/update applied for each: {dueNow}) add up to {sumCosts dueNow} > max_cost = {snap.max} (the policy's own total reads {snap.used})"
                 else tl
               | _ => tl
+            let g := match implItem.getD it with
+              | .delete k cf =>
+                -- consume the oldest pending remove for this index (the one with the same conflict if there is one)
+                let idx := match g.pendingRemoves.findIdx? (fun (rk, rcf) => rk == k && rcf == cf) with
+                  | some i => some i
+                  | none => g.pendingRemoves.findIdx? (·.1 == k)
+                match idx with
+                | some i => { g with pendingRemoves := g.pendingRemoves.eraseIdx i }
+                | none => g
+              | _ => g
             let g := if descS == "wait" then
                 match g.waitFifo with
                 | w :: rest => { g with waitFifo := rest, releasedG := w :: g.releasedG }
